@@ -69,6 +69,20 @@ def run(ctx):
         H.gen_history(world, kind, ctx.rng.randint(1, 14 if ctx.quick else 40), weights=w, irregular_bias=0.65)
         GT[0] += oracle(ctx, world)
     ctx.extra["irregular_states_checked"] = check_records(ctx, world)
+
+    # borrowed / read-only buffers: after every call, accepted or rejected, one monotonic timestamp per sample
+    def bjudge(info, w, before, o, after):
+        t = after.get("timing")
+        if info["timing"] == "irregular" and t is not None:
+            stamps = t[4]
+            mono = stamps is not None and (all(a <= b for a, b in zip(stamps, stamps[1:])) or all(a >= b for a, b in zip(stamps, stamps[1:])))
+            if stamps is None or len(stamps) != after.get("count") or not mono:
+                ctx.violation(what="irregular timing does not carry one monotonic timestamp per sample after a call", call_outcome=str(o[:2]),
+                              observed=f"{None if stamps is None else len(stamps)} timestamps, {after.get('count')} samples",
+                              required="equal counts, monotonic", **info)
+                return False
+        return True
+    ctx.extra["borrowed_buffer_calls"] = H.borrowed_cases(ctx, bjudge, quick_subset=ctx.quick)
     ctx.extra["irregular_objects_with_get_timestamps"] = GT[0]
     for r in world.records:
         ctx.case(r["line"], nontrivial=not r.get("malformed"))
